@@ -416,3 +416,86 @@ def replay_lifecycle(p):
             break
     return {"reproduced": bool(problems), "expected": "every evaluator behaves like a fresh one built from the last text it accepted; "
             "invalid text always raises", "observed": "; ".join(problems[:3]) or "all sequences conform"}
+
+
+@register("module_equiv")
+def replay_module_equiv(p):
+    """exec(generate_code(text, expose)) in a fresh namespace and call the function named after the
+    experiment: same group / same error class as ExperimentEvaluator(text)."""
+    from pyab_experiment.experiment_evaluator import ExperimentEvaluator
+    from pyab_experiment.utils.wraper_functions import generate_code, parse_source
+    fields = {k: dec(v) for k, v in p["fields"].items()}
+    ev_o = outcome_of(lambda: ExperimentEvaluator(p["text"])(**fields))
+
+    def run_module():
+        code = generate_code(p["text"], p["expose"])
+        ns = {}
+        exec(compile(code, "<generated>", "exec"), ns)
+        name = parse_source(p["text"]).id
+        return ns[name](**fields)
+    mod_o = outcome_of(run_module)
+    same = ev_o[0] == mod_o[0] and ((ev_o[0] == "value" and ev_o[1] == mod_o[1] and type(ev_o[1]) is type(mod_o[1])) or
+                                    (ev_o[0] == "raise" and ev_o[1] == mod_o[1]))
+    return {"reproduced": not same, "expected": "module: same outcome as the evaluator (%s)" % show(ev_o), "observed": show(mod_o)}
+
+
+_CHILD = r'''
+import json, sys, os, contextlib, io
+sys.path.insert(0, os.environ["PYAB_REPO"] + "/src")
+from pyab_experiment.experiment_evaluator import ExperimentEvaluator
+sys.path.insert(0, os.environ["VERIF_DIR"])
+from vf.replay import dec
+p = json.load(sys.stdin)
+rows = [{k: dec(v) for k, v in r.items()} for r in p["rows"]]
+out = []
+with contextlib.redirect_stdout(io.StringIO()):
+    e1 = ExperimentEvaluator(p["text"]); e2 = ExperimentEvaluator(p["text"])
+    def call(e, r):
+        try:
+            return repr(e(**r))
+        except Exception as ex:
+            return "raise:" + type(ex).__name__
+    first = [call(e1, r) for r in rows]
+    again = [call(e1, r) for r in reversed(rows)][::-1]
+    other = [call(e2, r) for r in rows]
+    e1.recompile(p["text"] + " "); e1.recompile(p["text"])
+    after = [call(e1, r) for r in rows]
+print(json.dumps({"first": first, "again": again, "other": other, "after": after}))
+'''
+
+
+@register("process_independence")
+def replay_process_independence(p):
+    """Same source and inputs in child interpreters with different PYTHONHASHSEED / locale / cwd,
+    on repeated calls, on a second instance and after a recompile cycle: identical assignments."""
+    import json
+    import os
+    import subprocess
+    import sys
+    import tempfile
+    verif = os.path.dirname(os.path.dirname(os.path.abspath(__file__)))
+    repo = os.environ.get("PYAB_REPO", "/repo")
+    rows = p["rows"] or [{"uid": {"s": [117, 48 + i % 10, 48 + i // 10]}} for i in range(24)]
+    payload = json.dumps({"text": p["text"], "rows": rows})
+    outs = []
+    envs = [("0", "C", None), ("1", "C.UTF-8", "/"), ("2", "C", None), ("12345", "POSIX", "/tmp"), ("random", "C", None),
+            ("3", "C", None), ("4", "C", None), ("5", "C", None)]
+    for seed, lang, cwd in envs:
+        env = dict(os.environ, PYTHONHASHSEED=seed, LANG=lang, LC_ALL=lang, PYAB_REPO=repo, VERIF_DIR=verif)
+        r = subprocess.run([sys.executable, "-c", _CHILD], input=payload, capture_output=True, text=True, env=env,
+                           cwd=cwd or verif, timeout=120)
+        line = [l for l in r.stdout.splitlines() if l.startswith("{")]
+        outs.append(json.loads(line[-1]) if line else {"error": r.stderr[-300:]})
+    problems = []
+    base = outs[0]
+    if "error" in base:
+        problems.append("child failed: %s" % base["error"])
+    else:
+        for k in ("again", "other", "after"):
+            if base[k] != base["first"]:
+                problems.append("within one process: '%s' transcript differs from the first" % k)
+        for i, o in enumerate(outs[1:], 1):
+            if o.get("first") != base["first"]:
+                problems.append("process with PYTHONHASHSEED=%s LANG=%s differs from the first process" % envs[i][:2])
+                break
+    return {"reproduced": bool(problems), "expected": "identical transcripts", "observed": "; ".join(problems[:3]) or "identical"}
